@@ -112,6 +112,25 @@ Theorem C15_probe_context_parent : forall rc ops e,
 Proof. intros rc ops. apply (pp_run rc ops init pp_init). Qed.
 Print Assumptions C15_probe_context_parent.
 
+(* Isolation against objects that were never admitted: an UpstreamCluster object whose name is bound to
+   another cluster's object (it is one of that cluster's extra server names), or that claims a server name
+   bound to another object, is rejected by the sync handler — nothing changes; and deleting an object
+   whose name is unbound or bound to an object that is not its own changes nothing either: the owner of
+   the name keeps its names, contexts, endpoints and requests. *)
+Theorem C15_rejected_object_is_inert : forall rc s name aliases sv,
+  (match resolve s name with
+   | None => conflict s (next s) (name :: aliases) = true
+   | Some o => match find_cl s o with
+               | Some c => primary c <> name \/ conflict s o (name :: aliases) = true
+               | None => True end
+   end -> step rc s (OUpsert name aliases sv) = (s, []))
+  /\ (match resolve s name with
+      | None => True
+      | Some o => match find_cl s o with Some c => primary c <> name | None => True end
+      end -> step rc s (ODelete name) = (s, [])).
+Proof. intros. split; [apply upsert_rejected|apply delete_foreign]. Qed.
+Print Assumptions C15_rejected_object_is_inert.
+
 (* Over every continuation [ops] of any state: a cluster context that is done stays done, an endpoint
    (probe) context that is done stays done, an endpoint object that left the map never comes back
    (re-adding the same URL creates a new object), and a forwarded request whose context is done keeps
@@ -209,4 +228,13 @@ Example C15_remove_restarted_probe_nonvacuous :
   snd (step true (run true init [OUpsert 0 [] [(10, true); (11, false)]]) (OTick 1)) = []
   /\ snd (step true s (OTick 1)) = [EProbe 1]
   /\ snd (step true s' (OTick 1)) = [] /\ snd (step true s' (OTick 2)) = [EProbe 2].
+Proof. vm_compute. repeat split; reflexivity. Qed.
+
+(* cluster 0 owns server name 5; an object named 5, an object claiming alias 0, and an object claiming
+   alias 5 are all rejected, and deleting them leaves cluster 0 exactly as it was *)
+Example C15_rejected_object_nonvacuous :
+  let s := run true init demo in
+  run true s [OUpsert 5 [] [(30, false)]; OUpsert 7 [0] [(31, false)]; OUpsert 8 [5] [(32, false)];
+              ODelete 5; ODelete 7; ODelete 8] = s
+  /\ resolve s 5 = Some 0 /\ resolve s 7 = None.
 Proof. vm_compute. repeat split; reflexivity. Qed.
